@@ -54,7 +54,7 @@ _mos_modules = dict()  # `Dict[(MosType, MosVth), ExternalModule]`, if that work
 for tp, tpname in _mos_typenames.items():
     for vt, vtname in _mos_vtnames.items():
 
-        modname = f"{tp}mos{vtname}"
+        modname = f"{tpname}mos{vtname}"
         mod = h.ExternalModule(
             domain="asap7",
             name=modname,
@@ -90,7 +90,7 @@ class Asap7Walker(h.HierarchyWalker):
         """Retrieve or create an `ExternalModule` for a MOS of parameters `params`."""
         mod = _mos_modules.get((params.tp, params.vth), None)
         if mod is None:
-            raise RuntimeError(f"No Mos module {modname}")
+            raise RuntimeError(f"No Mos module for type {params.tp} and threshold {params.vth}")
         return mod
 
     def mos_module_call(self, params: MosParams) -> h.ExternalModuleCall:
